@@ -72,7 +72,7 @@ def jobs(tier, seed):
         nfs = sorted({-1, 0, k - 1, k, n, n + 1}) if tier == "thorough" or n <= 3 else sorted({k - 1, k, n - 1, n + 1})
         for nfv in nfs:
           for var, defs, props, fns in (("decode", {}, ["C01", "C02", "C09", "C13", "C15", "C16", "C17"], DEC_FN),
-                                      ("decode.damage", {"DAMAGE": 1}, ["C20"], DEC_FN),
+                                      ("decode.damage", {"DAMAGE": 1}, ["C20", "C02", "C15", "C16"], DEC_FN),
                                       ("reconstruct", {"RECON": 1}, ["C03", "C02", "C09", "C13", "C15", "C16", "C17"],
                                        ["liberasurecode_reconstruct_fragment"] + DEC_FN[2:])):
             if var == "decode.damage" and nfv < k:
